@@ -17,9 +17,10 @@ class CheckerError(Exception):
 
 class Ob:
     """One proof obligation (a named case) and its verdict."""
-    __slots__ = ('id', 'status', 'engine', 'detail', 'cex', 'replay', 'seconds', 'function', 'clause')
+    __slots__ = ('id', 'status', 'engine', 'detail', 'cex', 'replay', 'seconds', 'function', 'clause', 'soft')
 
-    def __init__(self, id, status, engine, detail='', cex=None, replay=None, seconds=0.0, function='', clause=''):
+    def __init__(self, id, status, engine, detail='', cex=None, replay=None, seconds=0.0, function='', clause='', soft=False):
+        self.soft = soft              # a sufficient-condition lemma whose bounded stand-in is exhaustive up to a stated depth: left open it does not change the exit code
         self.id = id
         self.status = status
         self.engine = engine          # 'pysym' | 'smt:z3' | 'smt:cvc5' | 'fst' | 'lrtab' | 'frames'
@@ -166,10 +167,11 @@ class Report:
                 tail = ' no-failing-input-found'
             print(f'VIOLATION property={self.prop} replay={rp}{tail}')
             print(f'  obligation {v.id}: {(getattr(v, "detail", None) or getattr(v, "observed", ""))!s:.300}')
-        if undec:
+        hard = [o for o in undec if not o.soft]
+        if hard:
             rc = rc or 2
-            for o in undec[:20]:
-                print(f'UNDECIDED property={self.prop} {o.id}: {o.detail!s:.300}')
+        for o in undec[:20]:
+            print(f'{"NOT-ESTABLISHED (bounded evidence only)" if o.soft else "UNDECIDED"} property={self.prop} {o.id}: {o.detail!s:.300}')
         self._write_evidence(violations, kf_lines, stale, undec)
         n_p = sum(1 for o in self.obs if o.status == PROVED)
         print(f'[{self.prop}] tier={self.tier} obligations={len(self.obs)} proved={n_p} '
